@@ -10,6 +10,7 @@
 From Coq Require Import ZArith List Bool.
 From CSS Require Import Base.Sx Forest.Spec Forest.Model Forest.TerminationDefs Forest.TerminationRun.
 From CSS Require Import Gen.Prelude Gen.ForestCanGiveTerms Gen.ForestComputeShift Gen.ForestPreimageGap.
+From CSS Require Import Forest.ModelB Forest.SchedDefs.
 Import ListNotations.
 Open Scope Z_scope.
 
@@ -75,9 +76,109 @@ Definition run_gen (inp : sx) : sx :=
   | _ => I (ForestPreimageGap.preimage_gap (sx_Zs (sx_nth inp 2)) (sx_Z (sx_nth inp 3)))
   end.
 
+(* ---------------- layer B (Forest/ModelB.v) ----------------
+   input : ( -8 ( op ... ) ( snapshot ... ) )    one snapshot of the REAL object's internals per op
+   output: ( -8000
+             (answer ...)        layer A, exactly the list of the plain input format
+             (answer ...)        layer B observables, same encoding
+             (verdict ...) )     per op: (canon_equal full_equal [B's canonical snapshot when it differs])
+   A snapshot is ( rows using pumping _value preimage_count _infinity_count _gap_size _current_gap ):
+        rows    : _shifts
+        using   : _rules_using_class  as sorted lists of (rule child_idx), trailing empties stripped
+        pumping : _rules_pumping_class as sorted lists, trailing empties stripped
+     canon_equal: everything but _current_gap, the rows of rules whose parent is infinite masked (the
+                  code never updates such a row again: its content depends on the schedule)
+     full_equal : all rows and _current_gap — may depend on the set order
+   The verdicts are INFORMATIONAL (internals are not observable behaviour). *)
+Definition fuel_forB (ops : list op) : nat := fuel_boundS ops.
+
+Fixpoint ins_nat (x : nat) (l : list nat) : list nat :=
+  match l with [] => [x] | y :: t => if Nat.leb x y then x :: l else y :: ins_nat x t end.
+Definition sort_nat (l : list nat) : list nat := fold_right ins_nat [] l.
+Definition pair_leb (a b : nat * nat) : bool :=
+  Nat.ltb (fst a) (fst b) || (Nat.eqb (fst a) (fst b) && Nat.leb (snd a) (snd b)).
+Fixpoint ins_pair (x : nat * nat) (l : list (nat * nat)) : list (nat * nat) :=
+  match l with [] => [x] | y :: t => if pair_leb x y then x :: l else y :: ins_pair x t end.
+Definition sort_pair (l : list (nat * nat)) : list (nat * nat) := fold_right ins_pair [] l.
+
+Fixpoint strip_empty {A} (l : list (list A)) : list (list A) :=
+  match l with
+  | [] => []
+  | x :: t => match strip_empty t, x with
+              | [], [] => []
+              | t', _ => x :: t'
+              end
+  end.
+
+Definition enc_row (row : list (option Z)) : sx := L (map of_optZ row).
+Definition enc_rows_full (b : tmB) : sx := L (map enc_row (b_shifts b)).
+Definition enc_rows_canon (b : tmB) : sx :=
+  L (map (fun ir => match getf (fval (b_fn b)) (parent (snd ir)) with
+                    | None => I (-1)
+                    | Some _ => enc_row (nth (fst ir) (b_shifts b) [])
+                    end)
+         (combine (seq 0 (length (b_rules b))) (b_rules b))).
+Definition enc_int_canon (b : tmB) : sx :=
+  L [enc_rows_canon b;
+     L (map (fun l => L (map (fun p => L [of_nat (fst p); of_nat (snd p)]) (sort_pair l)))
+            (strip_empty (b_using b)));
+     L (map (fun l => of_nats (sort_nat l)) (strip_empty (b_pumping b)));
+     L (map of_optZ (fval (b_fn b)));
+     of_Zs (fn_preimage_count (b_fn b));
+     I (finf (b_fn b));
+     I (b_gsize b)].
+Definition enc_int_full (b : tmB) : sx :=
+  L [enc_rows_full b; L [I (fst (b_cgap b)); I (snd (b_cgap b))]].
+
+(* the rows supplied by the harness, the rows of dead rules (infinite parent IN LAYER B) masked *)
+Definition mask_rows (b : tmB) (rows : list sx) : sx :=
+  L (map (fun ir => match getf (fval (b_fn b)) (parent (snd ir)) with
+                    | None => I (-1)
+                    | Some _ => nth (fst ir) rows (L [])
+                    end)
+         (combine (seq 0 (length (b_rules b))) (b_rules b))).
+
+(* given = ( rows using pumping _value preimage_count _infinity_count _gap_size _current_gap ) *)
+Definition cmp_int (b : tmB) (given : sx) : sx :=
+  let c := enc_int_canon b in
+  let gc := L [mask_rows b (sx_list (sx_nth given 0)); sx_nth given 1; sx_nth given 2; sx_nth given 3;
+               sx_nth given 4; sx_nth given 5; sx_nth given 6] in
+  let ce := sx_eqb c gc && Nat.eqb (length (sx_list (sx_nth given 0))) (length (b_rules b)) in
+  let fe := sx_eqb (enc_int_full b) (L [sx_nth given 0; sx_nth given 7]) in
+  L ([of_bool ce; of_bool fe] ++ (if ce then [] else [c])).
+
+Definition enc_funB (b : tmB) : sx :=
+  L (map (fun p => L [of_nat (fst p); of_optZ (snd p)]) (function_dictB b)).
+
+(* observables and verdicts of layer B; (-1) = out of fuel, (-2) = an `assert` of the code failed
+   (both impossible: RefineB.runB_terminates / runB_never_asserts) *)
+Fixpoint run_obsB (fuel : nat) (b : tmB) (ops : list op) (ints : list sx) : list sx * list sx :=
+  match ops with
+  | [] => ([], [])
+  | AddKey r :: t =>
+      match add_rule_keyB pick0 ord_id fuel b r with
+      | None => ([L [I (-1)]], [])
+      | Some b' =>
+          if b_fail b' then ([L [I (-2)]], [])
+          else
+            let '(os, vs) := run_obsB fuel b' t (tl ints) in
+            (L [enc_funB b'; of_nats (pumping_subuniverseB b')] :: os, cmp_int b' (hd (L []) ints) :: vs)
+      end
+  | IsPumping c :: t =>
+      let '(b', ans) := is_pumpingB b c in
+      let '(os, vs) := run_obsB fuel b' t (tl ints) in
+      (of_bool ans :: os, cmp_int b' (hd (L []) ints) :: vs)
+  end.
+
+Definition run_c03B (inp : sx) : sx :=
+  let ops := map dec_op (sx_list (sx_nth inp 1)) in
+  let '(os, vs) := run_obsB (fuel_forB ops) initB ops (sx_list (sx_nth inp 2)) in
+  L [I (-8000); L (run_obs (fuel_for ops) init ops); L os; L vs].
+
 Definition run_c03 (inp : sx) : sx :=
   match sx_nth inp 0 with
   | I (-7) => run_gen inp
+  | I (-8) => run_c03B inp
   | _ =>
   let ops := map dec_op (sx_list inp) in
   L (run_obs (fuel_for ops) init ops)
